@@ -22,6 +22,12 @@ pub struct MockApi {
     /// the actor's own fields (field index -> SBOR payload); a field handle is the field index
     pub fields: BTreeMap<u8, Vec<u8>>,
     pub field_writes: Vec<(u8, Vec<u8>)>,
+    /// answers that are not consumed (method name -> payload), consulted after the queues
+    pub defaults: BTreeMap<String, Vec<u8>>,
+    /// kernel-level substates (one per node) and the open handles
+    pub substates: BTreeMap<NodeId, IndexedScryptoValue>,
+    pub handles: Vec<NodeId>,
+    pub outer_object: Option<GlobalAddress>,
 }
 
 impl MockApi {
@@ -32,6 +38,9 @@ impl MockApi {
         self.calls.push((*receiver, method.to_string(), args));
         if let Some(v) = self.answers.get_mut(method).and_then(|q| q.pop_front()) {
             return Ok(v);
+        }
+        if let Some(v) = self.defaults.get(method) {
+            return Ok(v.clone());
         }
         // default answers of the vault component (an opaque bucket / proof node, a fixed amount)
         let own = |entity: EntityType| {
@@ -236,7 +245,8 @@ impl SystemObjectApi<RuntimeError> for MockApi {
         unimplemented!("MockApi::get_blueprint_id")
     }
     fn get_outer_object(&mut self, node_id: &NodeId) -> Result<GlobalAddress, RuntimeError> {
-        unimplemented!("MockApi::get_outer_object")
+        // the outer object of a proof / bucket / vault node is its resource manager: the scenario's resource
+        Ok(self.outer_object.unwrap_or(XRD.into()))
     }
     fn allocate_global_address( &mut self, blueprint_id: BlueprintId, ) -> Result<(GlobalAddressReservation, GlobalAddress), RuntimeError> {
         unimplemented!("MockApi::allocate_global_address")
@@ -279,3 +289,80 @@ impl SystemTransactionRuntimeApi<RuntimeError> for MockApi {
     }
 }
 
+
+impl radix_engine::kernel::kernel_api::KernelSubstateApi<()> for MockApi {
+    fn kernel_mark_substate_as_transient(
+        &mut self,
+        node_id: NodeId,
+        partition_num: PartitionNumber,
+        key: SubstateKey,
+    ) -> Result<(), RuntimeError> {
+        unimplemented!("MockApi::kernel_mark_substate_as_transient")
+    }
+    fn kernel_open_substate_with_default<F: FnOnce() -> IndexedScryptoValue>(
+        &mut self,
+        node_id: &NodeId,
+        partition_num: PartitionNumber,
+        substate_key: &SubstateKey,
+        flags: LockFlags,
+        default: Option<F>,
+        lock_data: (),
+    ) -> Result<u32, RuntimeError> {
+        assert!(self.substates.contains_key(node_id), "MockApi: no substate for node");
+        self.handles.push(*node_id);
+        Ok((self.handles.len() - 1) as u32)
+    }
+    fn kernel_get_lock_data(&mut self, lock_handle: u32) -> Result<(), RuntimeError> {
+        Ok(())
+    }
+    fn kernel_close_substate(&mut self, lock_handle: u32) -> Result<(), RuntimeError> {
+        Ok(())
+    }
+    fn kernel_read_substate(&mut self, lock_handle: u32) -> Result<&IndexedScryptoValue, RuntimeError> {
+        Ok(&self.substates[&self.handles[lock_handle as usize]])
+    }
+    fn kernel_write_substate(&mut self, lock_handle: u32, value: IndexedScryptoValue) -> Result<(), RuntimeError> {
+        unimplemented!("MockApi::kernel_write_substate")
+    }
+    fn kernel_set_substate(
+        &mut self,
+        node_id: &NodeId,
+        partition_num: PartitionNumber,
+        substate_key: SubstateKey,
+        value: IndexedScryptoValue,
+    ) -> Result<(), RuntimeError> {
+        unimplemented!("MockApi::kernel_set_substate")
+    }
+    fn kernel_remove_substate(
+        &mut self,
+        node_id: &NodeId,
+        partition_num: PartitionNumber,
+        substate_key: &SubstateKey,
+    ) -> Result<Option<IndexedScryptoValue>, RuntimeError> {
+        unimplemented!("MockApi::kernel_remove_substate")
+    }
+    fn kernel_scan_sorted_substates(
+        &mut self,
+        node_id: &NodeId,
+        partition_num: PartitionNumber,
+        count: u32,
+    ) -> Result<Vec<(SortedKey, IndexedScryptoValue)>, RuntimeError> {
+        unimplemented!("MockApi::kernel_scan_sorted_substates")
+    }
+    fn kernel_scan_keys<K: radix_substate_store_interface::db_key_mapper::SubstateKeyContent>(
+        &mut self,
+        node_id: &NodeId,
+        partition_num: PartitionNumber,
+        count: u32,
+    ) -> Result<Vec<SubstateKey>, RuntimeError> {
+        unimplemented!("MockApi::kernel_scan_keys")
+    }
+    fn kernel_drain_substates<K: radix_substate_store_interface::db_key_mapper::SubstateKeyContent>(
+        &mut self,
+        node_id: &NodeId,
+        partition_num: PartitionNumber,
+        count: u32,
+    ) -> Result<Vec<(SubstateKey, IndexedScryptoValue)>, RuntimeError> {
+        unimplemented!("MockApi::kernel_drain_substates")
+    }
+}
